@@ -26,22 +26,29 @@ def step_record(hid, cat, cmd, target, code, out, hooks_t):
     return {"id": hid, "init": {"kind": "absent", "big": False, "files": []}, "cat": [{"id": i, "f": ct.jfile(f)} for i, f in sorted(cat.items())], "events": [ev]}
 
 
+def case_files(case):
+    rnd = random.Random(case["seed"])
+    files = []
+    for j, nm in enumerate(case["names"]):
+        ftype, dtype = case["kinds"][j % len(case["kinds"])]
+        files.append(ct.mkfile(nm, ct.content(rnd, "rand", case["lens"][j % len(case["lens"])]), ftype, dtype, 0x2000 + j if ftype == 2 else 0, 0x2004 + j if ftype == 2 else 0,
+                               ext="BIN" if ftype == 2 else "BAS"))
+    return files
+
+
 def one(args):
     import file_util
     k, case = args
     W = tempfile.mkdtemp(prefix="c16", dir=os.environ.get("VERIF_SCRATCH"))
     out_recs = []
     try:
-        rnd = random.Random(case["seed"])
-        files, cat = [], {}
-        for j, nm in enumerate(case["names"]):
-            ftype, dtype = case["kinds"][j % len(case["kinds"])]
-            f = ct.mkfile(nm, ct.content(rnd, "rand", case["lens"][j % len(case["lens"])]), ftype, dtype, 0x2000 + j if ftype == 2 else 0, 0x2004 + j if ftype == 2 else 0,
-                          ext="BIN" if ftype == 2 else "BAS")
-            files.append(f)
-            cat[500 + j] = f
+        files = case_files(case)
+        cat = {500 + j: f for j, f in enumerate(files)}
         src = os.path.join(W, "src." + case["srckind"])
-        write_image(src, case["srckind"], files)
+        if case.get("srcbuf") is not None:             # a tape recorded WITH GAPS, written by the specification's writer (gap flag $FF, leaders between the blocks)
+            open(src, "wb").write(bytes(case["srcbuf"]))
+        else:
+            write_image(src, case["srckind"], files)
         sel_ids = case["select"]                       # None = all, else list of indices
         argv = [src, "--to_" + case["sw"], os.path.join(W, "t1." + case["sw"])]
         if sel_ids is not None:
@@ -71,7 +78,7 @@ def cases(rnd, n):
         sw = rnd.choice(["cas", "dsk", "dsk", "cas", "bin"])
         out.append({"seed": rnd.randrange(1 << 30), "names": names, "srckind": rnd.choice(["cas", "dsk"]), "sw": sw, "select": sel,
                     "how": rnd.choice(["same", "upper", "lower", "swap"]), "lens": [rnd.choice([1, 20, 255, 256, 300, 2294, 2295, 2304, 5000]) for _ in range(3)],
-                    "kinds": [rnd.choice([(2, 0), (2, 0), (0, 0), (1, 255), (2, 255), (1, 0), (0, 255), (3, 255)]) for _ in range(3)]})
+                    "kinds": [rnd.choice([(2, 0), (2, 0), (0, 0), (1, 255), (2, 255), (1, 0), (0, 255), (3, 255)]) for _ in range(3)], "gapped": rnd.random() < 0.3})
     return out
 
 
@@ -81,6 +88,29 @@ def run(ctx):
     c10.gates(ctx, thorough)
     t0 = time.time()
     cs = cases(rnd, 3000 if thorough else 260)
+    gapped = [(k, c) for k, c in enumerate(cs) if c["srckind"] == "cas" and c["gapped"]]
+    if gapped:
+        ins = [{"id": k, "files": [dict(ct.jfile(f), gap=255) for f in case_files(c)], "lay": {"blank": 0, "leader": 128, "gap": rnd.choice([1, 64, 128])}} for k, c in gapped]
+        bufs, _ = tlc.bulk("Gen_Tape", ins, nproc=6, min_chunk=20, heap="4g")
+        for k, c in gapped:
+            c["srcbuf"] = bufs[k]["buffer"]
+    # ... and source disks written by the specification's writer: granule chains in any order, killed directory entries before / between the files
+    holed = [(k, c) for k, c in enumerate(cs) if c["srckind"] == "dsk" and c["gapped"]]
+    if holed:
+        ins = []
+        for k, c in holed:
+            files = case_files(c)
+            free = list(range(68))
+            rnd.shuffle(free)
+            chains = []
+            for f in files:
+                extra = [x for x in ct.KINDS.values() if x[0] == f["type"] and x[1] == f["dtype"]][0][2]
+                chains.append([free.pop() for _ in range((len(f["data"]) + extra) // ct.GB + 1)])
+            slots = sorted(rnd.sample(range(1, rnd.choice([len(files) + 1, len(files) + 3, 20]) + 1), len(files)))
+            ins.append({"id": k, "files": [ct.jfile(f) for f in files], "chains": chains, "slots": slots})
+        imgs, _ = tlc.bulk("Gen_Disk", ins, cfg="Gen_Disk", nproc=6, min_chunk=8, heap="6g")
+        for k, c in holed:
+            c["srcbuf"] = ct.expand_sparse(imgs[k])
     os.environ["VERIF_SCRATCH"] = tlc.OUT
     with mp.Pool(16) as pool:
         recs = [r for rs in pool.map(one, list(enumerate(cs)), chunksize=4) for r in rs]
@@ -90,9 +120,9 @@ def run(ctx):
         case = cs[r["id"] // 2]
         stp = verd[r["id"]]["steps"][0]
         cls = dict(stp["class"], srckind=case["srckind"] if r["id"] % 2 == 0 else case["sw"], how=case["how"] if case["select"] is not None else "all",
-                   lowernames=any(n != n.upper() for n in case["names"]), back=r["id"] % 2 == 1,
+                   lowernames=any(n != n.upper() for n in case["names"]), back=r["id"] % 2 == 1, gapped=bool(case["gapped"]),
                    nonml=any(k != (2, 0) for k in [tuple(x) for x in case["kinds"]][:len(case["names"])]))
-        ctx.add_class("c16|" + "|".join(str(cls[x]) for x in ("srckind", "sw", "how", "lowernames", "back", "newn", "post")))
+        ctx.add_class("c16|" + "|".join(str(cls[x]) for x in ("srckind", "sw", "how", "lowernames", "back", "newn", "post", "gapped")))
         for c in stp["failed"]:
             if c not in ("allowed", "newpath", "complete", "notraceback"):
                 continue
